@@ -37,7 +37,7 @@ ANCHORS = [datetime(2020, 2, 28, 20, 0, 0), datetime(2020, 2, 29, 23, 59, 0), da
 FMT = ('%(date)|%(account)|%(verif_rational(amount))|%(payee)|%(code)|%(cleared)|%(checkin)|%(checkout)'
        '|%(beg_line)|%(virtual)|%(filename)'
        '|%(scrub(display_amount))|%(verif_rational(scrub(display_amount)))|%(scrub(display_total))|%(verif_rational(scrub(display_total)))\\n')
-BAL_FMT = ('A|%(account)|%(scrub(display_total))|%(verif_rational(scrub(display_total)))\\n'
+BAL_FMT = ('A|%(account)|%(scrub(display_total))|%(verif_rational(scrub(display_total)))|%(subcount)\\n'
            '%/T|%(scrub(display_total))|%(verif_rational(scrub(display_total)))\\n%/S\\n')
 # units a journal may put above hours: (label, factor from the unit below, decimals it is declared with, directive)
 UNIT_SETS = [
@@ -501,7 +501,8 @@ def run_impl(path, now, db, master=None):
 
 
 def run_bal(path, now, db, master=None):
-    """`bal --flat --empty`: -> (status, [(account, shown text, exact unreduced value)], total (text, exact) or None)"""
+    """`bal --flat --empty`: -> (status, [(account, shown text, exact unreduced value)], total (text, exact) or None,
+    {account: %(subcount), the number of postings the account itself holds})"""
     args = ['-f', path, 'bal', '--flat', '--empty', '--now', (EPOCH + timedelta(seconds=now)).strftime('%Y/%m/%d'), '--format', BAL_FMT]
     if db:
         args.append('--day-break')
@@ -521,14 +522,15 @@ def run_bal(path, now, db, master=None):
             time.sleep(2)
             continue
         break
-    accts, total = [], None
+    accts, total, held = [], None, {}
     for l in out.decode('utf-8', 'replace').split('\n'):
         f = l.split('|')
-        if f[0] == 'A' and len(f) == 4:
+        if f[0] == 'A' and len(f) == 5:
             accts.append((f[1], f[2], f[3]))
+            held[f[1]] = int(f[4]) if re.fullmatch(r'-?\d+', f[4]) else None
         elif f[0] == 'T' and len(f) == 3:
             total = (f[1], f[2])
-    return st, accts, total
+    return st, accts, total, held
 
 
 def exact_of(x):
@@ -843,6 +845,23 @@ def oracle(files, main, master, now_s, r, db, bal=None):
         for a in want:
             if want[a] and a not in shown:
                 viol.append(('reported:bal-missing', 'bal does not list %s' % a, str(sorted(shown)), a))
+        # "produces ONE posting to that account" (one per calendar day touched under --day-break): the number of
+        # postings an account holds, as bal's %(subcount) (and `stats`, %(count), %(account.count)) reports it, is the
+        # number of postings its sessions produced - one per session, or one per day touched.  The rows of each
+        # session were counted above; here the account's own count is read.
+        given = {}
+        for a, tin, tout, fi, lin in sessions:
+            given[a] = given.get(a, 0) + (len(by_line.get((fi, lin), [])) if db else 1)
+        for a, tin, fi, lin in still:
+            given[a] = given.get(a, 0) + (len(by_line.get((fi, lin), [])) if db else 1)
+        for a in sorted(given):
+            h = bal[3].get(a)
+            if h is None or h == given[a]:
+                continue
+            kind = 'each-posting-held-twice' if h == 2 * given[a] else 'other'
+            viol.append(('posting-count:' + kind, 'the sessions of %s produce %d posting(s); the account holds %d (bal %%(subcount); stats and %%(count) count the same list)'
+                         % (a, given[a], h), h, given[a]))
+            break
     known = {(fi, lin) for _, _, _, fi, lin in sessions} | {(fi, lin) for _, _, fi, lin in still}
     for key in by_line:
         if key not in known:
@@ -1061,6 +1080,7 @@ def run(ctx, n_override=None):
     shrunk = set()
     mpos = 0
     reported = []         # (case text, chain, [(what, seconds, text shown, exact shown)]) for the second model batch
+    held_cmp = []         # (case, [(account, register rows of the account, %(subcount) of bal)]) for the third model batch
     for i, (tag, case, files, main, insts) in enumerate(prepared):
         if hangs >= 3:
             res.notes.append('stopped after 3 runs that did not terminate within 10 s and again within 90 s')
@@ -1109,6 +1129,11 @@ def run(ctx, n_override=None):
                     per[w['acct']] = per.get(w['acct'], 0) + w['secs']
                     items.append(('reg amount', w['secs'], w['da'], exact_of(w['dax'])))
                     items.append(('reg running total', run_total, w['dt'], exact_of(w['dtx'])))
+                nrows = {}
+                for w in r['rows']:
+                    nrows[w['acct']] = nrows.get(w['acct'], 0) + 1
+                held_cmp.append((dict(files=files, main=main, now=case['now'], master=case.get('master'), day_break=bool(db)),
+                                 [(a, nrows.get(a, 0), bal[3].get(a)) for a, _, _ in bal[1]]))
                 if bal[0] != 0 or sorted(a for a, _, _ in bal[1]) != sorted(per):
                     res.disagreements.append(dict(name='C20/bal-accounts', case=dict(files=files, main=main, now=case['now'], master=case.get('master'), day_break=bool(db)),
                                                   impl='status %s, accounts %s' % (bal[0], sorted(a for a, _, _ in bal[1])), model=str(sorted(per))))
@@ -1167,6 +1192,20 @@ def run(ctx, n_override=None):
                 bad += 1
                 res.disagreements.append(dict(name='C20/reported-time', case=cs, impl='%s of %d s: %s (%s)' % (what, secs_, txt, ex),
                                               model='%s (%s)' % (mtxt, mex)))
+    # the postings each account holds (bal %(subcount)) against the model's held_of_rows of its register rows
+    ns = sorted({n_ for _, items in held_cmp for _, n_, _ in items})
+    held_model = {}
+    if ns:
+        for n_, l in zip(ns, lib.run_model('C20', ['(held h%d %d)' % (n_, n_) for n_ in ns])):
+            held_model[n_] = int(l.split(' H ', 1)[1])
+    bad = 0
+    for cs, items in held_cmp:
+        for a, n_, h in items:
+            res.count('accounts-with-posting-count')
+            if h != held_model[n_] and bad < 20:
+                bad += 1
+                res.disagreements.append(dict(name='C20/postings-held', case=cs, impl='%s holds %s postings (bal %%(subcount))' % (a, h),
+                                              model='%d (register rows of the account: %d)' % (held_model[n_], n_)))
     for nt, c in sorted(noted.items()):
         res.notes.append('%s [%d runs]' % (nt, c))
     return res
@@ -1197,7 +1236,7 @@ def replay(ctx, obj):
         print('replay: required %s, observed before %s' % (obj.get('required'), obj.get('observed')))
         bal = run_bal(ctx.path(main), case['now'], db, case.get('master')) if r['status'] == 0 else None
         if bal:
-            print('replay: bal %s total %s' % (bal[1], bal[2]))
+            print('replay: bal %s total %s postings held %s' % (bal[1], bal[2], bal[3]))
         viol, _ = oracle(files, main, case.get('master'), case['now'], r, db, bal)
         for key, desc, obs, req in viol:
             if key == obj.get('key'):
